@@ -59,6 +59,19 @@ func genSpec(r *rand.Rand, i int) c05wl.Spec {
 		spec.Blobs = append(spec.Blobs, gen.Bytes(r, n))
 		var seq []c05wl.Step
 		upload := (b+i)%2 == 0
+		if n > 0 && r.Intn(2) == 0 {
+			// first a transfer whose bytes do not match the digest: the commit must be
+			// rejected and must not leave anything behind under the blob's name
+			if upload {
+				seq = append(seq, c05wl.Step{Op: "upstart", Blob: b}, c05wl.Step{Op: "uppatch", Blob: b, Chunk: [2]int{0, n}, Corrupt: true},
+					c05wl.Step{Op: "upcommit", Blob: b})
+			} else {
+				seq = append(seq, c05wl.Step{Op: "refresh", Blob: b, PieceLength: spec.PieceLength, Corrupt: true})
+				if spec.MemCache {
+					seq = append(seq, c05wl.Step{Op: "drain", Blob: -1})
+				}
+			}
+		}
 		if upload {
 			seq = append(seq, c05wl.Step{Op: "upstart", Blob: b})
 			pos := 0
@@ -272,8 +285,14 @@ func runWorkload(t *testing.T, bin, base string, w workload, killRand *rand.Rand
 		}
 		switch s.Op {
 		case "uppatch":
+			if s.Corrupt {
+				return fmt.Sprintf("%d:uppatch%s [%d,%d) (one byte flipped)", i, d, s.Chunk[0], s.Chunk[1])
+			}
 			return fmt.Sprintf("%d:uppatch%s [%d,%d)", i, d, s.Chunk[0], s.Chunk[1])
 		case "refresh", "overwritemi":
+			if s.Corrupt {
+				return fmt.Sprintf("%d:%s%s piece_length=%d (one byte flipped)", i, s.Op, d, s.PieceLength)
+			}
 			return fmt.Sprintf("%d:%s%s piece_length=%d", i, s.Op, d, s.PieceLength)
 		}
 		return fmt.Sprintf("%d:%s%s", i, s.Op, d)
@@ -379,7 +398,9 @@ func runWorkload(t *testing.T, bin, base string, w workload, killRand *rand.Rand
 			for _, name := range resp.Listed {
 				o := resp.Blobs[name]
 				if !o.HasData {
-					if o.ReadErr != "" {
+					if o.DataOnDisk {
+						addF("listed-blob-has-data-file-but-store-says-not-exist/"+wk, map[string]interface{}{"name": name, "error": o.ReadErr})
+					} else if o.ReadErr != "" {
 						addF("listed-blob-unreadable/"+wk, map[string]interface{}{"name": name, "error": o.ReadErr})
 					} else {
 						res.counts["listed_names_without_data_file"]++
@@ -503,6 +524,7 @@ func TestC05(t *testing.T) {
 	if err := fsrec.BuildChild("./c05/cmd/c05child", bin); err != nil {
 		t.Fatalf("build child: %v", err)
 	}
+	t.Logf("child %s built from the harness module with modfile %q, VERIF_REPO=%q (empty = /repo)", bin, fsrec.ChildModfile(), os.Getenv("VERIF_REPO"))
 	if _, err := exec.LookPath("strace"); err != nil {
 		run.Inconclusive("strace not available")
 		return
